@@ -370,8 +370,9 @@ impl Rasn {
 fn parse_rust_derive_annotation(input: &str) -> nom::IResult<&str, Vec<&str>> {
     use nom::{
         bytes::complete::tag,
-        character::complete::{alphanumeric1, char, multispace0},
-        combinator::opt,
+        bytes::complete::take_while1,
+        character::complete::{char, multispace0},
+        combinator::{opt, recognize},
         multi::{many0, separated_list1},
         sequence::delimited,
         Parser as _,
@@ -389,7 +390,14 @@ fn parse_rust_derive_annotation(input: &str) -> nom::IResult<&str, Vec<&str>> {
             char('('),
             multispace0,
         ),
-        separated_list1(many0((multispace0, char(','), multispace0)), alphanumeric1),
+        // a derive is named by a path (`Debug`, `serde::Serialize`, `Serialize_repr`)
+        separated_list1(
+            many0((multispace0, char(','), multispace0)),
+            recognize(separated_list1(
+                tag("::"),
+                take_while1(|c: char| c.is_alphanumeric() || c == '_'),
+            )),
+        ),
         // a derive list may end in a comma
         (
             multispace0,
